@@ -11,8 +11,8 @@ static const char *alpha[] = {"a", "(", ")", "[", "]", "^", "$", "|", "*", "+", 
 #define NA 24
 
 static const char *lines[] = {"\n", "a\n", "aaa\n", "a1\n", "\xc3\xa9\n", "a\xc3\xa9" "2\n", "a-1:2\n",
-	"(a)[1]{2}\n", "a,b.c \xe4\xb8\x80\n", "^$|*+?\\<>\n"};
-#define NLINES 10
+	"(a)[1]{2}\n", "a,b.c \xe4\xb8\x80\n", "^$|*+?\\<>\n", "zaab\n"};
+#define NLINES 11
 
 static int exact_only;
 static long n_compiled, n_rejected, n_matches, n_found;
@@ -217,6 +217,12 @@ static void build_family(void)
 			add_family("%s\\>", buf);
 			add_family("z%s*b", buf);		/* the last group starred */
 			add_family("%s(|a)*b", buf);
+			{
+				char opt[600] = "";
+				for (k = 0; k < ks[i] && strlen(opt) < 580; k++)
+					strcat(opt, "(x)?");
+				add_family("z%s(a)*b", opt);	/* optional groups, then a starred group with a high number */
+			}
 		}
 	}
 	/* long literal runs and nested groups */
